@@ -88,7 +88,7 @@ pub fn corr(run: &mut Run) {
                 let sig = format!("C01:wrong-result:{}:{}", fam.name, fam.ops.first().cloned().unwrap_or_default());
                 match r {
                     Ok(Ok(v)) => {
-                        if fam.exact && v != expected {
+                        if !fam_close(&fam, &v, &expected) {
                             run.oracle_fail(&sig, format!("{} : compiled graph returns a different value than the source graph", descr));
                             break;
                         }
